@@ -540,6 +540,10 @@ pixman_transform_rotate (struct pixman_transform *forward,
 {
     struct pixman_transform t;
 
+    /* -s is not representable for the most negative value */
+    if (s == pixman_min_fixed_48_16)
+	return FALSE;
+
     if (forward)
     {
 	pixman_transform_init_rotate (&t, c, s);
@@ -589,6 +593,10 @@ pixman_transform_translate (struct pixman_transform *forward,
 
     if (reverse)
     {
+	/* -tx, -ty are not representable for the most negative value */
+	if (tx == pixman_min_fixed_48_16 || ty == pixman_min_fixed_48_16)
+	    return FALSE;
+
 	pixman_transform_init_translate (&t, -tx, -ty);
 
 	if (!pixman_transform_multiply (reverse, reverse, &t))
